@@ -260,9 +260,38 @@ def remaining_reservations(w, infos, upto=None):
     return table
 
 
+def valid_request(cfg, a):
+    _, kind, side, pi, amt, lim, stp, ab, ar = a
+    bp = cfg["bp"]
+    qp = cfg["qp"] if PAIRS[pi].quote_symbol == "USD" else cfg["bp"]
+    if D(amt) <= 0 or not on_grid(D(amt), bp):
+        return False
+    for p_ in (lim, stp):
+        if p_ is not None and (D(p_) <= 0 or not on_grid(D(p_), qp)):
+            return False
+    return True
+
+
 def m_holds(tr):
     bad = crashes(tr, ("bar", "cancel"))
     w = tr.w
+    # acceptance: without borrowing a valid request is accepted exactly when the available funds cover its reservation,
+    # under every lending strategy and price path
+    if tr.a[0] == "ord" and not tr.a[7] and w.t > 0 and not (tr.raised and tr.raised[0] == "crash"):
+        a = tr.a
+        if valid_request(tr.cfg, a):
+            m = dict(kind=a[1], side=a[2], pair=a[3], amt=D(a[4]), lim=None if a[5] is None else D(a[5]),
+                     stp=None if a[6] is None else D(a[6]), close_at_accept=tr.before.close.get(a[3]))
+            R = reservation(tr.cfg, m)
+            covered = all(tr.before.bal.get(s, (ZERO,))[0] >= v for s, v in R.items())
+            if covered and tr.raised:
+                bad.append(("covered-request-rejected", f"request {a[1:7]} rejected ({tr.raised[1]}: {tr.raised[2]}) although the "
+                            f"available funds cover its reservation {R}"))
+            if not covered and not tr.raised:
+                bad.append(("uncovered-request-accepted", f"request {a[1:7]} accepted although the available funds do not cover its "
+                            f"reservation {R}"))
+        elif not tr.raised:
+            bad.append(("invalid-request-accepted", f"invalid request {a[1:7]} accepted"))
     table = remaining_reservations(w, tr.after.orders)
     exp = collections.defaultdict(lambda: ZERO)
     for res in table.values():
@@ -323,10 +352,11 @@ def m_liquidity_precision(tr):
         for name, v in (("available", av), ("hold", hold), ("borrowed", bor)):
             if not on_grid(v, sym_prec(cfg, s)):
                 bad.append(("balance-dust", f"{s} {name}={v} is not a multiple of 1e-{sym_prec(cfg, s)}"))
-    if tr.a[0] == "bar" and cfg.get("liq") is not None and not tr.raised:
+    if tr.a[0] == "bar" and not tr.raised:
         _, pi, si = tr.a
         volume = D(SHAPES[si][4]) * D(1).scaleb(-bp)
-        budget = volume * D(str(cfg["liq"][0])) / 100
+        # infinite liquidity does not depend on the bar's volume
+        budget = volume * D(str(cfg["liq"][0])) / 100 if cfg.get("liq") is not None else D("Infinity")
         o_, h_, l_, c_ = (D(x) for x in SHAPES[si][:4])
         p = PAIRS[pi]
         used = ZERO
@@ -420,6 +450,10 @@ def m_margin(tr):
     if granted:
         pr = prices_of(w)
         req = D(str(cfg["lend"]["req"]))
+        unpriced = sorted(s for s, b in tr.after.bal.items() if b[2] and s not in pr)
+        if unpriced and req > 0:
+            bad.append(("loan-without-price", f"loan granted while {unpriced} is borrowed and has no last price: the requirement "
+                        f"cannot be valued"))
         if all(s in pr for s, b in tr.after.bal.items() if b[2] or b[3]):
             equity = sum((max(b[3], ZERO) * pr[s] for s, b in tr.after.bal.items() if s in pr), ZERO)
             need = sum((req * b[2] * pr[s] for s, b in tr.after.bal.items() if s in pr), ZERO)
